@@ -139,3 +139,9 @@ native_unit("poly_native", "winter-math", "math", "native/poly_bounded.rs", ["C2
             ["polynom::{eval, eval_many, add, sub, mul, mul_by_scalar, div, syn_div, syn_div_in_place, syn_div_roots_in_place, interpolate, interpolate_batch, poly_from_roots, degree_of, remove_leading_zeros}", "utils::{get_power_series, get_power_series_with_offset, add_in_place, mul_acc, batch_inversion}"],
             "every function agrees with its defining identity, checked against a naive reference written in the stand-in (schoolbook product, evaluation by explicit powers): sums / differences / products / scalar multiples, quotient * divisor + remainder = dividend with deg remainder < deg divisor (long, synthetic by x^a - b, by roots), interpolation passes through the points with degree < n, expansion from roots is the monic product, degrees, power series, in-place accumulation, batch inversion with zeros preserved; nothing panics inside the documented domains",
             "NATIVE EXECUTION, not a proof: polynomials of 0..9 coefficients (0, 1, -1, seeded; zero leading / trailing coefficients) x 6 draws per size pair, all synthetic divisors x^a - b with a < 12, 1..4 roots, 1..9 interpolation points, vectors of 0..40 elements with a zero at every position and of 1023..2049 elements; f64, f128, f62, their quadratic extensions, cubic extensions of f64 and f62")
+
+native_unit("fft_native", "winter-prover", "prover", "native/fft_bounded.rs", ["C09"],
+            ["fft::{evaluate_poly, evaluate_poly_with_offset, interpolate_poly, interpolate_poly_with_offset, get_twiddles, get_inv_twiddles, infer_degree, permute_index}", "fft::serial / fft_inputs", "ColMatrix::{interpolate_columns, evaluate_columns_over}", "RowMatrix::evaluate_polys_over (segment width 8)", "matrix::{build_segments, get_evaluation_offsets, Segment}", "StarkDomain::from_twiddles"],
+            "the fast transforms return exactly the direct evaluations at offset * w^i in natural order (direct evaluation written in the stand-in), interpolation inverts them, degree inference reports the true degree, and the column-batched / segmented LDE of a matrix equals direct evaluation of every column polynomial; permute_index is the bit reversal",
+            "NATIVE EXECUTION, not a proof: sizes 2^1..2^10 (2^12 thorough) x 3 coefficient shapes x offsets {1, generator, seeded} x blowups {1, 2, 4, 8, 16, 128} with size * blowup <= 2^13 (2^15 thorough); f64, f128, f62, their quadratic extensions, cubic extensions of f64 / f62; matrices of 8 / 64 / 512 rows with 1..255 columns over f64, f128 and extensions; without the `concurrent` feature",
+            timeout=2400)
